@@ -325,7 +325,7 @@ class Ctx:
         try:
             p = subprocess.run(argv, input=data, stdout=subprocess.PIPE, stderr=subprocess.PIPE, timeout=timeout, env=e)
             out = p.stdout.decode("utf-8", "replace").splitlines()
-            return out, p.returncode, p.stderr.decode("utf-8", "replace")[-3000:]
+            return out, p.returncode, p.stderr.decode("utf-8", "replace")[-30000:]
         except subprocess.TimeoutExpired as ex:
             out = (ex.stdout or b"").decode("utf-8", "replace").splitlines()
             return out, -999, "TIMEOUT after %ss" % timeout
@@ -471,7 +471,7 @@ def decl_at(path, line):
 def classify_crash(rc, err):
     if rc == -999:
         return "timeout"
-    m = re.search(r"ERROR: AddressSanitizer: ([\w-]+)", err)
+    m = re.search(r"ERROR: AddressSanitizer: ([\w-]+)", err) or re.search(r"SUMMARY: AddressSanitizer: ([\w-]+)", err)
     if m:
         return "asan:" + m.group(1)
     m = re.search(r"runtime error: ([^\n]{0,80})", err)
